@@ -56,6 +56,9 @@ package sourcebundle
 //@   ghost $packCalls Int = 0
 //@   at-call go-slug.Packer.Pack C09.archive.packer: a0 != nil && a0.dereference && !a0.applyTerraformIgnore && len(a0.allowSymlinkTargets) == 0 && a1 == b.rootDir
 //@   ensures C09.archive.packed-once: err == nil ==> $packCalls == 1
+// and a packer that failed (a write error, an unreadable file) makes the archiving fail: no truncated archive passes
+//@   ghost $packFailed Bool = false
+//@   ensures C12,C09.archive.pack-error-reported: err == nil ==> !$packFailed
 
 //@ macro addrLE(A, B): len(remotePkgStr(A)) < len(remotePkgStr(B)) || (len(remotePkgStr(A)) == len(remotePkgStr(B)) && remotePkgStr(A) <= remotePkgStr(B))
 //@ func (*Bundle).SourceForLocalPath -> (r, err)
@@ -109,6 +112,9 @@ package sourcebundle
 // filepath.Walk skips the rest of the containing directory when SkipDir is returned for a non-directory: the entries
 // after it would be neither pruned nor checked
 //@   ensures C10,C03.prepare.skipdir-only-for-directories: err == nil && rerr == filepath.SkipDir ==> modeDirBit(fileMode(info))
+// a walk that could not look at an entry or into a directory ends the preparation with an error: what it could not
+// visit was not sanitised, and a package in that state must not be accepted
+//@   ensures C10,C12.prepare.walk-error-reported: err != nil ==> rerr != nil && (rerr == err || rerr != filepath.SkipDir)
 
 //@ func buildTraceFromContext -> (r)
 //@   pure
@@ -240,12 +246,16 @@ package sourcebundle
 //@   at-call Builder.AddRegistrySource C17.add-final.exact-version: a2 == addr.src && a3 == onlyVersion(addr.version) && a4 == depFinder
 
 //@ func (*Builder).Close -> (r, err)
+//@   opt propagate-errors
 //@   replay bundleWorld:
 //@   requires pre.b: b != nil
 //@   at-panic C12.close.refuses-when-poisoned: b.targetDir == ""
 //@   at-call Builder.writeManifest C12,C09.close.manifest-path: a1 == Join(old(b.targetDir), "terraform-sources.json") && b.targetDir == ""
 //@   at-call OpenDir C09.close.opens-what-it-wrote: a0 == old(b.targetDir)
 //@   ensures C12.close.no-bundle-on-error: err != nil ==> r == nil
+// and the other way round: a Close that reports success hands out the bundle (a failure to reopen what was written is
+// reported, not turned into a nil bundle with a nil error)
+//@   ensures C12.close.bundle-or-error: err == nil ==> r != nil
 
 //@ callgraph C12.manifest-only-in-close: only (*Builder).Close calls Builder.writeManifest
 //@ callgraph C12.manifest-writer: only (*Builder).writeManifest calls os.WriteFile
